@@ -129,6 +129,28 @@ def check(ctx):
     ctx.require(R2, ok and wr, soc[0].where() if soc else "-", "the owner is set after the content was written", [WF, "owner-before-write"])
 
     R3 = ctx.rule("R3", "FileManager fields come from the like-named Config getters; each getter reads the same-named global option with its own default")
+    fm_wiring_rule(ctx, R3, GETTERS)
+
+
+    from .c14 import merge_pairing
+    R3b = ctx.rule("R3b", "when [global] tables of included files are merged, each mode/owner/group option is taken from the same-named option")
+    merge_pairing(ctx, R3b, only=("cert_file_mode", "cert_file_user", "cert_file_group", "pk_file_mode", "pk_file_user", "pk_file_group"))
+
+
+def discr_names(body, sbb):
+    t = body.term(sbb)
+    dl = op_local(t["discr"])
+    for kind, bb, j, st in body.defs.get(dl, []):
+        if kind == "stmt" and st["s"] == "assign" and st["rv"]["k"] == "discr":
+            return {int(v[0]): v[1] for v in st["rv"].get("variants", [])}
+    return {}
+
+
+def fm_wiring_rule(ctx, R3, getters):
+    """FileManager.<field> <- Config::<getter>() <- global.<option> (| default) for the given fields — shared with C02/C03 for the
+    file-name extensions (a key file that gets the certificate's extension can end up on the certificate's path)"""
+    prog = ctx.prog
+    GETTERS = getters
     nb = prog.async_body("acmed::main_event_loop::MainEventLoop::new")
     lits = agg_assigns(nb, FM)
     ctx.floor(R3, "FileManager literals in MainEventLoop::new", len(lits), 2)
@@ -146,17 +168,3 @@ def check(ctx):
         if dflt:
             items = {c.get("item") for c in sl.consts if c.get("item")}
             ctx.require(R3, dflt in items, "%s:%s" % (gb.file, gb.line), "Config::%s falls back to %s (%s)" % (getter, dflt.rsplit("::", 1)[1], sorted(x for x in items if x)), ["config::" + getter, "default"])
-
-
-    from .c14 import merge_pairing
-    R3b = ctx.rule("R3b", "when [global] tables of included files are merged, each mode/owner/group option is taken from the same-named option")
-    merge_pairing(ctx, R3b, only=("cert_file_mode", "cert_file_user", "cert_file_group", "pk_file_mode", "pk_file_user", "pk_file_group"))
-
-
-def discr_names(body, sbb):
-    t = body.term(sbb)
-    dl = op_local(t["discr"])
-    for kind, bb, j, st in body.defs.get(dl, []):
-        if kind == "stmt" and st["s"] == "assign" and st["rv"]["k"] == "discr":
-            return {int(v[0]): v[1] for v in st["rv"].get("variants", [])}
-    return {}
